@@ -115,8 +115,10 @@ func loadCorpus(path string) {
 	for i, c := range corpus {
 		corpusByDoc[c.Doc] = append(corpusByDoc[c.Doc], i)
 	}
-	systematic = gen.Systematic()
+	systematic = append(gen.Systematic(), extraExprs...)
 }
+
+var extraExprs []string
 
 func compiles(expr string) (ok bool) {
 	defer func() {
@@ -180,6 +182,9 @@ func pickExprDoc(r *gen.Rng) (exprs []string, doc DocSpec, src string) {
 		n := 1 + r.Intn(3)
 		for i := 0; i < n; i++ {
 			exprs = append(exprs, systematic[r.Intn(len(systematic))])
+			if r.Chance(1, 14) {
+				exprs[i] = gen.CaseFlip(r, exprs[i])
+			}
 		}
 		return exprs, DocSpec{Kind: "json", Text: gen.Doc(r), CapSeed: r.Next() | 1, GoNums: goNumSeed(r)}, "systematic-random"
 	case x < 90:
@@ -858,17 +863,82 @@ func writeReplay(dir string, rp *Replay) string {
 
 // ---------------------------------------------------------------- main
 
+type funcInfo struct {
+	Name     string     `json:"name"`
+	Args     [][]string `json:"args"`
+	Variadic bool       `json:"variadic"`
+}
+
+var knownBuiltins = map[string]bool{"length": true, "starts_with": true, "abs": true, "avg": true, "ceil": true, "contains": true, "ends_with": true, "floor": true, "map": true, "max": true, "merge": true,
+	"max_by": true, "sum": true, "min": true, "min_by": true, "type": true, "keys": true, "values": true, "sort": true, "sort_by": true, "join": true, "reverse": true, "to_array": true, "to_string": true,
+	"to_number": true, "not_null": true}
+
+// extraFunctionExprs: call expressions for built-ins the library's function table has and
+// this harness has never heard of (a changed tree may add functions): every argument
+// position is fed from the document according to the declared argument types.
+func extraFunctionExprs(fns []funcInfo) []string {
+	src := map[string][]string{
+		"jpArray":       {"nums", "strs", "objs", "nested", "`[3,1,3,2,1]`", "objs[*].s", "mixed"},
+		"jpArrayNumber": {"nums", "`[3,1,3,2]`", "objs[*].k"},
+		"jpArrayString": {"strs", "objs[*].s", "`[\"dev\",\"dev\",\"ops\"]`"},
+		"jpObject":      {"o1", "o2", "objs[0]"},
+		"jpString":      {"s", "'a'", "strs[0]"},
+		"jpNumber":      {"n", "`2`", "nums[0]"},
+		"jpExpref":      {"&k", "&@", "&s"},
+		"jpAny":         {"nums", "objs", "o1", "s", "strs"},
+	}
+	var out []string
+	for _, f := range fns {
+		if knownBuiltins[f.Name] {
+			continue
+		}
+		combos := [][]string{{}}
+		args := f.Args
+		if len(args) == 0 {
+			args = [][]string{{"jpAny"}}
+		}
+		if f.Variadic && len(args) == 1 {
+			args = append(args, args[0])
+		}
+		for _, types := range args {
+			var cands []string
+			for _, t := range types {
+				cands = append(cands, src[t]...)
+			}
+			if len(cands) == 0 {
+				cands = src["jpAny"]
+			}
+			var next [][]string
+			for _, c := range combos {
+				for _, a := range cands {
+					if len(next) < 80 {
+						next = append(next, append(append([]string{}, c...), a))
+					}
+				}
+			}
+			combos = next
+		}
+		for _, c := range combos {
+			call := f.Name + "(" + strings.Join(c, ", ") + ")"
+			out = append(out, call, "("+call+") | [0]", "["+c[0]+", "+call+"]", "objs[*]."+f.Name+"("+strings.Join(append([]string{"t"}, c[1:]...), ", ")+")")
+		}
+	}
+	return out
+}
+
 func loadSites(path string) {
 	b, err := os.ReadFile(path)
 	if err != nil {
 		fatal2("site table: %v", err)
 	}
 	var rp struct {
-		Sites []SiteInfo `json:"sites"`
+		Sites     []SiteInfo `json:"sites"`
+		Functions []funcInfo `json:"functions"`
 	}
 	if err := json.Unmarshal(b, &rp); err != nil {
 		fatal2("site table: %v", err)
 	}
+	extraExprs = extraFunctionExprs(rp.Functions)
 	siteTable = rp.Sites
 	siteWrite = make([]bool, len(siteTable))
 	for i, s := range siteTable {
